@@ -5,6 +5,10 @@ calls and of uses of the exposed dictionary `f.cache`.
 M1  TLC: spec/core/Cached.tla, full reachable graph (2 decorated functions, 2 keys of which one raises, bounded
     invocations): invariants CallsAccounted / EntriesAreResults / FailureNotCached and the action properties
     NoRecompute / FirstResultSticks / MissComputesOnce / ReadsArePure / Independent.
+M3  code -> spec: seeded random histories on 3 decorated functions x 4 keys (2 of them raising), 40 operations each,
+    recorded from the real decorator and judged by TLC (spec/trace/CachedTrace.tla: the actions of Cached bound to
+    the logged operation, the returned value and the full projected state compared after every step; the state
+    invariants evaluated on every state of every recorded execution).
 M2  every transition of that graph replayed on the real `cached` objects (shortest path from Init + the
     transition): what the call returns or raises and the projected state (entries of f.cache, invocation
     counters of the deliberately impure underlying functions) are compared with the successor state TLC computed.
@@ -13,6 +17,7 @@ M2  every transition of that graph replayed on the real `cached` objects (shorte
 """
 import os
 
+import tracecheck
 import common
 import graphcover
 import tlaval
@@ -28,8 +33,9 @@ FAIL = {2}
 
 
 class World(object):
-    def __init__(self, cached, nf, args):
+    def __init__(self, cached, nf, args, fail=FAIL):
         self.args = args
+        self.fail = fail
         self.key_of = {a: i + 1 for i, a in enumerate(args)}
         self.fns, self.st = [], []
         for i in range(nf):
@@ -39,6 +45,7 @@ class World(object):
 
     def _make(self, st):
         key_of = self.key_of
+        FAIL = self.fail
 
         def func(*a):
             k = key_of.get(a)
@@ -147,4 +154,54 @@ def check(ctx):
         ctx.traces += len(range(ai % stride, len(edges), stride))
     ctx.log("cached: %d states, %d transitions, replayed with %d argument sets, %d differ"
             % (len(nodes), len(edges), len(argsets), nbad))
+    m3(ctx, cached)
     ctx.exhaustive = True
+
+
+ARGS4 = [((), (1, "x"), (None,), ((1, 2), 3)), ((7,), (7, 7), ("k",), (frozenset([1]), 2.5))]
+
+
+def m3(ctx, cached):
+    rng = ctx.rng
+    ntr, length = (200, 60) if ctx.thorough else (40, 40)
+    nf, nk, fail = 3, 4, {2, 4}
+    traces = []
+    for t in range(ntr):
+        w = World(cached, nf, ARGS4[t % len(ARGS4)], fail=fail)
+        evs = []
+        for _ in range(length):
+            st = w.project()
+            f = rng.randint(1, nf)
+            k = rng.randint(1, nk)
+            op = rng.choice(["call"] * 5 + ["index", "has", "has", "poke", "evict", "evict", "clear", "unhashable",
+                                            "keyword"])
+            if op == "poke" and st["cache"][f - 1][k - 1] == 900 + k:
+                op = "call"
+            if op == "clear" and not any(st["cache"][f - 1]):
+                op = "index"
+            e = {"op": op, "f": f, "k": k}
+            got = w.apply((op, f, k) if op not in ("clear", "unhashable", "keyword") else (op, f))
+            obs = w.project()
+            if obs["alien"] or obs["extra"]:
+                got = "alien-entry"
+            isint = isinstance(got, int) and not isinstance(got, bool)
+            e.update(reti=got if isint else -1, rets="" if isint else str(got),
+                     cache=[[v if isinstance(v, int) else -7 for v in row] for row in obs["cache"]],
+                     clock=list(obs["clock"]), ncall=[list(r) for r in obs["ncall"]])
+            evs.append(e)
+        traces.append({"events": evs})
+    consts = {"NF": str(nf), "NK": str(nk), "Fail": "{2, 4}", "MaxCalls": str(length + 1)}
+    acc, rej = tracecheck.run_traces(ctx, "CachedTrace", consts, traces,
+                                     invariants=("Accepted", "CallsAccounted", "EntriesAreResults",
+                                                 "FailureNotCached"),
+                                     what="X07 recorded histories")
+    ctx.traces += len(acc)
+    ctx.count(ntr * length)
+    ctx.nontrivial_count += len(acc)
+    ctx.log("M3: %d recorded histories of %d operations: %d accepted, %d rejected" % (ntr, length, len(acc), len(rej)))
+    for tid, (l, clause) in sorted(rej.items()):
+        ctx.violation("X07:trace:%s" % clause,
+                      {"rejected_at_event": l, "failing_clause": clause,
+                       "events_up_to_rejection": traces[tid - 1]["events"][max(0, l - 4):l]})
+    if len(acc) + len(rej) != ntr:
+        raise tlc.MachineryError("X07 trace validation: %d verdicts for %d traces" % (len(acc) + len(rej), ntr))
